@@ -534,7 +534,7 @@ Proof.
     { injection Hstep as <- <- <-. apply Hnop; auto. }
     destruct (vol f) as [c|] eqn:Hvol.
     2:{ injection Hstep as <- <- <-. apply Hnop; auto. }
-    destruct (true && tr && (pre_len nlen <=? clen c) && (good_len nlen c <? clen c)) eqn:Hcond.
+    destruct (true && (pre_len nlen <=? clen c) && (good_len nlen c <? clen c)) eqn:Hcond.
     2:{ injection Hstep as <- <- <-. apply Hnop; auto. }
     injection Hstep as <- <- <-.
     apply andb_true_iff in Hcond as [Hcond _]. apply andb_true_iff in Hcond as [_ Hlen].
@@ -545,15 +545,25 @@ Proof.
     subst c. rewrite good_len_full by assumption.
     assert (HV : View f ds bs t) by (split5; auto).
     assert (HV1 := V_trunc f ds bs t HV).
-    apply step_concl with (ds' := ds) (bs' := bs).
-    + rewrite fs_run_one. eapply view_inv; exact HV1.
-    + intros E. rewrite Ho in E. discriminate.
-    + intros _. apply Hclosed. reflexivity.
-    + apply prefix_refl.
-    + apply prefix_refl.
-    + constructor; [vp0 HV|]. constructor. vp0 HV1.
-    + intros _. simpl. now rewrite app_nil_r.
-    + intros _ H. discriminate H.
+    destruct tr.
+    + apply step_concl with (ds' := ds) (bs' := bs).
+      * simpl app. rewrite fs_run_cons, fs_run_one. eapply view_inv; exact HV1.
+      * intros E. rewrite Ho in E. discriminate.
+      * intros _. apply Hclosed. reflexivity.
+      * apply prefix_refl.
+      * apply prefix_refl.
+      * constructor; [vp0 HV|]. constructor; [vp0 HV1|]. constructor. vp0 HV1.
+      * intros _. simpl. now rewrite app_nil_r.
+      * intros _ H. discriminate H.
+    + apply step_concl with (ds' := ds) (bs' := bs).
+      * simpl app. rewrite fs_run_one. eapply view_inv; exact HV.
+      * intros E. rewrite Ho in E. discriminate.
+      * intros _. apply Hclosed. reflexivity.
+      * apply prefix_refl.
+      * apply prefix_refl.
+      * constructor; [vp0 HV|]. constructor. vp0 HV.
+      * intros _. simpl. now rewrite app_nil_r.
+      * intros _ H. discriminate H.
 Qed.
 
 End WithName.
@@ -612,7 +622,7 @@ Proof.
   - destruct (w_open w) eqn:Ho.
     + injection H as <- _ _. exact Ho.
     + destruct (vol f) as [c|].
-      * destruct (true && tr && (pre_len nlen <=? clen c) && (good_len nlen c <? clen c));
+      * destruct (true && (pre_len nlen <=? clen c) && (good_len nlen c <? clen c));
           injection H as <- _ _; exact Ho.
       * injection H as <- _ _. exact Ho.
 Qed.
